@@ -13,7 +13,12 @@ from phyclone.utils.dev import clear_proposal_dist_caches
 ID = "C04"
 LEVEL = "proof"
 THEOREMS = ["gibbs_block_invariant", "sweep_invariant", "categorical_gibbs_reversible", "dpStep_invariant",
-            "dataPointMove_invariant", "pruneRegraft_invariant", "move_sequence_invariant"]
+            "dataPointMove_invariant", "pruneRegraft_invariant", "move_sequence_invariant",
+            # the random-subtree move given the region (the unconditional statement is false: known finding F7)
+            "csmc_corrected_invariant", "csmc_corrected_invariant_final_resample", "corrected_kernel_is_modified_target",
+            "subtreeMove_factors", "subtree_given_exec", "subtree_conditional_invariant_abstract",
+            "subtree_conditional_invariant_E", "graftBack_restrict", "subtree_conditional_invariant",
+            "subtree_region_ok", "subtree_conditional_invariant_at_region"]
 BUDGET = {"quick": 170, "thorough": 1500}
 RULE = ("moves = data-point Gibbs scan, prune-regraft, random-subtree particle Gibbs, all built by run.setup_samplers; "
         "configurations = (data set of 2..3 points (4 sampled in thorough), alpha, outlier modelling off/on, and for the subtree "
